@@ -879,16 +879,16 @@ Lemma decorate_none ps0 : MM.decorate ps0 (MM.FExplicit [] []) = Ok (ps0, [], []
 Proof. reflexivity. Qed.
 
 (* what modifiers.annotate gets and gives, for the code of read_sig's result *)
-Lemma finish_annotate ps L ps0 names pl ret oa :
+Lemma finish_annotate ps L ps0 names po kw pl ret oa :
   NoDup (names_of ps) -> eager ps = true -> incl L ps ->
   (forall x, In x (names_of ps) -> In x (names_of L)) ->
   ps0 = map (strip oa) L ->
-  match fc_annotate (func_code (mkRSig names (add_anns oa ps []) [] [] pl) ret oa) with
-  | None => Some (ps0, fc_ret (func_code (mkRSig names (add_anns oa ps []) [] [] pl) ret oa))
+  match fc_annotate (func_code (mkRSig names (add_anns oa ps []) po kw pl) ret oa) with
+  | None => Some (ps0, fc_ret (func_code (mkRSig names (add_anns oa ps []) po kw pl) ret oa))
   | Some (r, anns) =>
       match MA.annotate (match r with Some v => Some (Some v) | None => None end) (anns_opt anns)
-              (mkSig ps0 (fc_ret (func_code (mkRSig names (add_anns oa ps []) [] [] pl) ret oa))
-                     (MA.preevaluated (fc_ret (func_code (mkRSig names (add_anns oa ps []) [] [] pl) ret oa))) [] []) with
+              (mkSig ps0 (fc_ret (func_code (mkRSig names (add_anns oa ps []) po kw pl) ret oa))
+                     (MA.preevaluated (fc_ret (func_code (mkRSig names (add_anns oa ps []) po kw pl) ret oa))) [] []) with
       | Ok s => Some (params s, Base.ret s)
       | Err _ => None
       end
@@ -955,7 +955,7 @@ Proof.
                                           (add_anns oa ps []) [] [] (native_params oa O P V K W)) ret oa) = [])
     by (split; reflexivity).
   destruct Hdec as [Hp1 Hp2]. rewrite Hp1, Hp2, decorate_none.
-  apply (finish_annotate ps ps (map (strip oa) ps) _ _ ret oa ND He (incl_refl ps)); [auto|reflexivity].
+  apply (finish_annotate ps ps (map (strip oa) ps) _ [] [] _ ret oa ND He (incl_refl ps)); [auto|reflexivity].
 Qed.
 
 (* ------------------------------------------------ the model's own boolean *)
@@ -1046,3 +1046,524 @@ Proof.
   rewrite (body_names O P V K W HO HP HV HK HW). rewrite list_N_eqb_refl.
   destruct ret; reflexivity.
 Qed.
+
+(* ================================================================ part 6 *)
+(* use_modifiers_kwoargs: where read_sig puts the keyword-only parameters *)
+Lemma step_ko_ok_nodef oa op i st p : pkind p = KO -> pdef p = None -> r_found_star st = true ->
+  rs_step oa op true i st (tk p)
+  = mkRS (r_names st ++ [pname p]) (add_ann oa (r_anns st) p) (r_poso st) (r_kwo st ++ [pname p])
+         (match r_default st with
+          | Some d => insert_at d (item oa p) (r_params st)
+          | None => if last_starts_with_star (r_params st)
+                    then insert_before_last (item oa p) (r_params st)
+                    else r_params st ++ [item oa p]
+          end) true (r_varargs st) (r_varkwargs st) (r_chevron st)
+         (match r_default st with Some d => Some (S d) | None => None end).
+Proof.
+  intros Hk Hd Hf. destruct st as [nm an po kw pr fs va vk ch df]. cbn [r_found_star] in Hf. subst fs.
+  unfold rs_step, tk, item, stars_of, add_ann. rewrite Hk, Hd. cbn.
+  destruct (pann p); destruct df; destruct oa; reflexivity.
+Qed.
+
+Lemma step_ko_ok_def oa op i st p x : pkind p = KO -> pdef p = Some x -> r_found_star st = true ->
+  rs_step oa op true i st (tk p)
+  = mkRS (r_names st ++ [pname p]) (add_ann oa (r_anns st) p) (r_poso st) (r_kwo st ++ [pname p])
+         (if last_starts_with_star (r_params st)
+          then insert_before_last (item oa p) (r_params st)
+          else r_params st ++ [item oa p])
+         true (r_varargs st) (r_varkwargs st) (r_chevron st)
+         (match r_default st with None => Some (i - 1)%nat | d => d end).
+Proof.
+  intros Hk Hd Hf. destruct st as [nm an po kw pr fs va vk ch df]. cbn [r_found_star] in Hf. subst fs.
+  unfold rs_step, tk, item, stars_of, add_ann. rewrite Hk, Hd. cbn.
+  destruct (pann p); destruct df; destruct oa; reflexivity.
+Qed.
+
+Lemma insert_at_app' {A} (pre : list A) x l : insert_at (length pre) x (pre ++ l) = pre ++ x :: l.
+Proof. induction pre as [|y pre IH]; cbn [length app insert_at]; [destruct l; reflexivity|rewrite IH; reflexivity]. Qed.
+
+Definition nostar (x : ptok) : Prop := starts_with_star x = false.
+
+Lemma lsws_nostar L : (forall x, In x L -> nostar x) -> last_starts_with_star L = false.
+Proof.
+  intros H. unfold last_starts_with_star. destruct (rev L) as [|q r] eqn:E; [reflexivity|].
+  apply H. apply in_rev. rewrite E. left. reflexivity.
+Qed.
+
+Lemma lsws_snoc L y : last_starts_with_star (L ++ [y]) = starts_with_star y.
+Proof. unfold last_starts_with_star. rewrite rev_unit. reflexivity. Qed.
+
+(* the new item goes at the end, but before the *args item *)
+Lemma place_last L Vt x :
+  (forall y, In y L -> nostar y) ->
+  (Vt = [] \/ exists v, Vt = [v] /\ starts_with_star v = true) ->
+  (if last_starts_with_star (L ++ Vt) then insert_before_last x (L ++ Vt) else (L ++ Vt) ++ [x])
+  = L ++ x :: Vt.
+Proof.
+  intros HL [->|[v [-> Hv]]].
+  - rewrite app_nil_r. rewrite (lsws_nostar L HL). reflexivity.
+  - rewrite lsws_snoc, Hv. unfold insert_before_last. rewrite app_length. cbn [length].
+    replace (length L + 1 - 1)%nat with (length L) by lia. apply insert_at_app'.
+Qed.
+
+Definition nodef_p (p : param) : bool := negb (has_def p).
+
+Section KwoSegment.
+Variables (oa op : bool) (P1 P2 V : list param).
+Hypothesis HP1 : forall p, In p P1 -> plain p.
+Hypothesis HP2 : forall p, In p P2 -> plain p.
+Hypothesis HVk : all_kind VP V.
+Hypothesis HVl : (length V <= 1)%nat.
+Let it := item oa.
+
+Lemma it_plain_nostar A : (forall p, In p A -> plain p) -> forall y, In y (map it A) -> nostar y.
+Proof.
+  intros HA y Hy. apply in_map_iff in Hy. destruct Hy as [p [<- Hp]].
+  unfold it, item, nostar. rewrite (HA p Hp). reflexivity.
+Qed.
+
+Lemma Vt_shape : map it V = [] \/ exists v, map it V = [v] /\ starts_with_star v = true.
+Proof.
+  destruct V as [|v [|v2 V']]; cbn [length] in HVl; try lia.
+  - left. reflexivity.
+  - right. exists (it v). split; [reflexivity|]. unfold it, item, stars_of.
+    rewrite (HVk v (or_introl eq_refl)). reflexivity.
+Qed.
+
+Lemma seg_K_ok K : forall kn kd i st, all_kind KO K ->
+  (forall p, In p kn -> plain p) -> (forall p, In p kd -> plain p) ->
+  r_found_star st = true -> r_chevron st = None ->
+  r_params st = map it (P1 ++ kn) ++ map it (P2 ++ kd) ++ map it V ->
+  r_default st = (if nonempty (P2 ++ kd) then Some (length (P1 ++ kn)) else None) ->
+  i = (length P1 + length P2 + 1 + length kn + length kd)%nat ->
+  exists D, rs_loop oa op true i (map tk K) st
+  = mkRS (r_names st ++ names_of K) (add_anns oa K (r_anns st)) (r_poso st)
+         (r_kwo st ++ names_of K)
+         (map it (P1 ++ kn ++ filter nodef_p K) ++ map it (P2 ++ kd ++ filter has_def K) ++ map it V)
+         true (r_varargs st) (r_varkwargs st) None D.
+Proof.
+  induction K as [|p K IH]; intros kn kd i st HK Hkn Hkd Hf Hc Hpr Hdf Hi.
+  - cbn [map rs_loop names_of add_anns fold_left filter]. rewrite !app_nil_r.
+    destruct st as [nm an po kw pr fs va vk ch df].
+    cbn [r_found_star r_chevron r_params r_default r_names r_anns r_poso r_kwo r_varargs r_varkwargs] in *.
+    subst fs ch pr. eexists. reflexivity.
+  - assert (Hpk : pkind p = KO) by (apply HK; left; reflexivity).
+    assert (Hpp : plain p) by (apply plain_kind; right; right; exact Hpk).
+    cbn [map rs_loop].
+    destruct (pdef p) as [x|] eqn:Dp.
+    + (* with a default: appended (before *args) *)
+      rewrite (step_ko_ok_def oa op i st p x Hpk Dp Hf).
+      match goal with |- context [rs_loop oa op true (S i) (map tk K) ?s] =>
+        destruct (IH kn (kd ++ [p]) (S i) s) as [D E] end.
+      * exact (all_kind_tail _ _ _ HK).
+      * exact Hkn.
+      * intros q Hq. apply in_app_or in Hq. destruct Hq as [Hq|[<-|[]]]; [exact (Hkd q Hq)|exact Hpp].
+      * reflexivity.
+      * cbn [r_chevron]. exact Hc.
+      * cbn [r_params]. rewrite Hpr.
+        replace (map it (P1 ++ kn) ++ map it (P2 ++ kd) ++ map it V)
+          with ((map it (P1 ++ kn) ++ map it (P2 ++ kd)) ++ map it V) by (rewrite <- app_assoc; reflexivity).
+        rewrite place_last.
+        -- rewrite !map_app. cbn [map]. rewrite <- !app_assoc. reflexivity.
+        -- intros y Hy. apply in_app_or in Hy. destruct Hy as [Hy|Hy].
+           ++ apply (it_plain_nostar (P1 ++ kn)); [|exact Hy].
+              intros q Hq. apply in_app_or in Hq. destruct Hq; auto.
+           ++ apply (it_plain_nostar (P2 ++ kd)); [|exact Hy].
+              intros q Hq. apply in_app_or in Hq. destruct Hq; auto.
+        -- exact Vt_shape.
+      * cbn [r_default]. rewrite Hdf.
+        assert (Hne : nonempty (P2 ++ kd ++ [p]) = true) by (destruct P2; [destruct kd|]; reflexivity).
+        rewrite Hne. destruct (nonempty (P2 ++ kd)) eqn:Ne; [reflexivity|].
+        assert (P2 = [] /\ kd = []) as [-> ->] by (destruct P2; [destruct kd; [auto|discriminate]|discriminate]).
+        f_equal. rewrite Hi, app_length. cbn [length]. lia.
+      * rewrite Hi, !app_length. cbn [length]. lia.
+      * rewrite E. cbn [r_names r_anns r_poso r_kwo r_varargs r_varkwargs].
+        cbn [names_of map add_anns fold_left filter].
+        assert (Hh : has_def p = true) by (unfold has_def; rewrite Dp; reflexivity).
+        assert (Hn : nodef_p p = false) by (unfold nodef_p; rewrite Hh; reflexivity).
+        rewrite Hh, Hn.
+        rewrite <- !app_assoc. cbn [app]. eexists. reflexivity.
+    + (* without a default: inserted before the first default *)
+      rewrite (step_ko_ok_nodef oa op i st p Hpk Dp Hf).
+      match goal with |- context [rs_loop oa op true (S i) (map tk K) ?s] =>
+        destruct (IH (kn ++ [p]) kd (S i) s) as [D E] end.
+      * exact (all_kind_tail _ _ _ HK).
+      * intros q Hq. apply in_app_or in Hq. destruct Hq as [Hq|[<-|[]]]; [exact (Hkn q Hq)|exact Hpp].
+      * exact Hkd.
+      * reflexivity.
+      * cbn [r_chevron]. exact Hc.
+      * cbn [r_params]. rewrite Hdf, Hpr. destruct (nonempty (P2 ++ kd)) eqn:Ne.
+        -- replace (length (P1 ++ kn)) with (length (map it (P1 ++ kn))) by apply map_length.
+           rewrite insert_at_app'. rewrite !map_app. cbn [map]. rewrite <- !app_assoc. reflexivity.
+        -- assert (P2 = [] /\ kd = []) as [-> ->] by (destruct P2; [destruct kd; [auto|discriminate]|discriminate]).
+           cbn [app map].
+           rewrite place_last.
+           ++ rewrite !map_app. cbn [map]. rewrite <- !app_assoc. reflexivity.
+           ++ apply it_plain_nostar. intros q Hq. apply in_app_or in Hq. destruct Hq; auto.
+           ++ exact Vt_shape.
+      * cbn [r_default]. rewrite Hdf. destruct (nonempty (P2 ++ kd)); [|reflexivity].
+        f_equal. rewrite !app_length. cbn [length]. lia.
+      * rewrite Hi, !app_length. cbn [length]. lia.
+      * rewrite E. cbn [r_names r_anns r_poso r_kwo r_varargs r_varkwargs].
+        cbn [names_of map add_anns fold_left filter].
+        assert (Hh : has_def p = false) by (unfold has_def; rewrite Dp; reflexivity).
+        assert (Hn : nodef_p p = true) by (unfold nodef_p; rewrite Hh; reflexivity).
+        rewrite Hh, Hn.
+        rewrite <- !app_assoc. cbn [app]. eexists. reflexivity.
+Qed.
+
+End KwoSegment.
+
+Lemma seg_K_ok' oa op P1 P2 V K i st :
+  (forall p, In p P1 -> plain p) -> (forall p, In p P2 -> plain p) ->
+  all_kind VP V -> (length V <= 1)%nat -> all_kind KO K -> r_chevron st = None ->
+  r_params st = map (item oa) P1 ++ map (item oa) P2 ++ map (item oa) V ->
+  (K = [] \/ (r_found_star st = true
+              /\ r_default st = (if nonempty P2 then Some (length P1) else None)
+              /\ i = (length P1 + length P2 + 1)%nat)) ->
+  exists D, rs_loop oa op true i (map tk K) st
+  = mkRS (r_names st ++ names_of K) (add_anns oa K (r_anns st)) (r_poso st)
+         (r_kwo st ++ names_of K)
+         (map (item oa) (P1 ++ filter nodef_p K) ++ map (item oa) (P2 ++ filter has_def K)
+          ++ map (item oa) V)
+         (r_found_star st) (r_varargs st) (r_varkwargs st) None D.
+Proof.
+  intros HP1 HP2 HV HlV HK Hc Hpr [->|[Hf [Hdf Hi]]].
+  - cbn [map rs_loop names_of add_anns fold_left filter]. rewrite !app_nil_r.
+    destruct st as [nm an po kw pr fs va vk ch df].
+    cbn [r_chevron r_params r_names r_anns r_poso r_kwo r_varargs r_varkwargs r_found_star] in *.
+    subst ch pr. eexists. reflexivity.
+  - destruct (seg_K_ok oa op P1 P2 V HP1 HP2 HV HlV K [] [] i st HK) as [D E].
+    + intros p [].
+    + intros p [].
+    + exact Hf.
+    + exact Hc.
+    + rewrite !app_nil_r. exact Hpr.
+    + rewrite !app_nil_r. exact Hdf.
+    + rewrite Hi. cbn [length]. lia.
+    + rewrite E. cbn [app]. rewrite Hf. eexists. reflexivity.
+Qed.
+
+Lemma defs_upd_some fs A : forall i d, defs_upd fs i (Some d) A = Some d.
+Proof.
+  induction A as [|p A IH]; intros i d; [reflexivity|]. cbn [defs_upd].
+  unfold def_upd. destruct (pdef p); apply IH.
+Qed.
+
+Lemma defs_upd_split P1 P2 : forall i,
+  (forall p, In p P1 -> pdef p = None) -> (forall p, In p P2 -> has_def p = true) ->
+  defs_upd false i None (P1 ++ P2) = if nonempty P2 then Some (i + length P1)%nat else None.
+Proof.
+  induction P1 as [|p P1 IH]; intros i H1 H2.
+  - cbn [app length]. destruct P2 as [|q P2]; [reflexivity|]. cbn [defs_upd nonempty].
+    unfold def_upd. specialize (H2 q (or_introl eq_refl)). unfold has_def in H2.
+    destruct (pdef q); [|discriminate]. rewrite defs_upd_some. f_equal. lia.
+  - cbn [app defs_upd length]. unfold def_upd. rewrite (H1 p (or_introl eq_refl)).
+    rewrite IH; [|intros q Hq; apply H1; right; exact Hq|exact H2].
+    destruct (nonempty P2); [f_equal; lia|reflexivity].
+Qed.
+
+(* *args or the bare star, keeping track of default_index *)
+Lemma seg_VS_exact oa op ok V K i st : all_kind VP V -> (length V <= 1)%nat ->
+  (forall v, In v V -> pdef v = None) -> r_chevron st = None ->
+  rs_loop oa op ok i (map tk V ++ st_ V K) st
+  = mkRS (r_names st) (add_anns oa V (r_anns st)) (r_poso st) (r_kwo st)
+         (r_params st ++ map (item oa) V ++ stp ok V K)
+         (r_found_star st || nonempty V || nonempty K)
+         (optname V (r_varargs st)) (r_varkwargs st) None (r_default st).
+Proof.
+  intros HV HlV Hd Hc.
+  destruct V as [|v [|v2 V]]; cbn [length] in HlV; try lia.
+  - cbn [map app st_ stp add_anns fold_left optname nonempty]. destruct K as [|k K].
+    + cbn [rs_loop nonempty]. rewrite app_nil_r, !orb_false_r.
+      destruct st as [nm an po kw pr fs va vk ch df]. cbn [r_chevron] in Hc. subst ch. reflexivity.
+    + cbn [rs_loop nonempty]. rewrite (step_star oa op ok i st Hc). rewrite orb_true_r.
+      destruct ok; [rewrite app_nil_r|]; reflexivity.
+  - cbn [map app st_ stp rs_loop add_anns fold_left optname nonempty].
+    rewrite (step_vp oa op ok i st v (HV v (or_introl eq_refl)) Hc).
+    rewrite ?app_nil_r, ?orb_true_r. cbn [orb]. unfold def_upd. rewrite (Hd v (or_introl eq_refl)).
+    reflexivity.
+Qed.
+
+Lemma length_VS V K : (length V <= 1)%nat -> K <> [] -> length (map tk V ++ st_ V K) = 1%nat.
+Proof.
+  intros HlV HK. destruct V as [|v [|v2 V]]; cbn [length] in HlV; try lia.
+  - destruct K; [congruence|reflexivity].
+  - reflexivity.
+Qed.
+
+(* read_sig of str(sig) with use_modifiers_kwoargs, signatures without
+   positional-only parameters *)
+Lemma read_sig_kwo oa op P1 P2 V K W :
+  all_kind PK (P1 ++ P2) -> all_kind VP V -> all_kind KO K -> all_kind VK W ->
+  (length V <= 1)%nat -> (length W <= 1)%nat ->
+  (forall p, In p P1 -> pdef p = None) -> (forall p, In p P2 -> has_def p = true) ->
+  (forall v, In v V -> pdef v = None) ->
+  read_sig (toks [] (P1 ++ P2) V K W) oa op true
+  = mkRSig (names_of (P1 ++ P2) ++ names_of K ++ names_of V ++ names_of W)
+           (add_anns oa ((P1 ++ P2) ++ V ++ K ++ W) []) [] (names_of K)
+           (map (item oa) (P1 ++ filter nodef_p K) ++ map (item oa) (P2 ++ filter has_def K)
+            ++ map (item oa) V ++ map (item oa) W).
+Proof.
+  intros HP HV HK HW HlV HlW H1 H2 HVd. unfold read_sig, toks. cbn [map sl app].
+  assert (E : map tk (P1 ++ P2) ++ map tk V ++ st_ V K ++ map tk K ++ map tk W
+              = map tk (P1 ++ P2) ++ (map tk V ++ st_ V K) ++ map tk K ++ map tk W)
+    by (rewrite <- !app_assoc; reflexivity).
+  rewrite E. clear E.
+  rewrite rs_loop_app.
+  assert (HPp : all_pos (P1 ++ P2)) by (intros p Hp; right; exact (HP p Hp)).
+  rewrite (seg_pos oa op true (P1 ++ P2) 0 rs_init HPp eq_refl).
+  cbn [rs_init r_names r_anns r_poso r_kwo r_params r_found_star r_varargs r_varkwargs r_chevron r_default app].
+  rewrite (defs_upd_split P1 P2 0 H1 H2).
+  rewrite rs_loop_app.
+  match goal with |- context [rs_loop oa op true ?i (map tk V ++ st_ V K) ?s] =>
+    rewrite (seg_VS_exact oa op true V K i s HV HlV HVd eq_refl) end.
+  cbn [r_names r_anns r_poso r_kwo r_params r_found_star r_varargs r_varkwargs r_chevron r_default orb].
+  rewrite rs_loop_app.
+  assert (Hst : stp true V K = []) by (destruct V; destruct K; reflexivity).
+  rewrite Hst, app_nil_r.
+  assert (Hpl1 : forall p, In p P1 -> plain p).
+  { intros p Hp. apply plain_kind. right. left. apply HP. apply in_or_app. left. exact Hp. }
+  assert (Hpl2 : forall p, In p P2 -> plain p).
+  { intros p Hp. apply plain_kind. right. left. apply HP. apply in_or_app. right. exact Hp. }
+  match goal with |- context [rs_loop oa op true ?i (map tk K) ?s] =>
+    destruct (seg_K_ok' oa op P1 P2 V K i s Hpl1 Hpl2 HV HlV HK eq_refl) as [D3 E3] end.
+  { cbn [r_params]. rewrite map_app, <- app_assoc. reflexivity. }
+  { destruct K as [|k K]; [left; reflexivity|right].
+    cbn [r_found_star r_default nonempty]. split; [apply orb_true_r|]. split; [reflexivity|].
+    rewrite (length_VS V (k :: K) HlV) by discriminate. rewrite map_length, app_length. lia. }
+  rewrite E3. clear E3.
+  cbn [r_names r_anns r_poso r_kwo r_params r_found_star r_varargs r_varkwargs r_chevron r_default].
+  match goal with |- context [rs_loop oa op true ?i (map tk W) ?s] =>
+    destruct (seg_W oa op true W i s HW HlW eq_refl) as [D4 E4]; rewrite E4; clear E4 end.
+  cbn [r_names r_anns r_poso r_kwo r_params r_found_star r_varargs r_varkwargs r_chevron r_default app].
+  rewrite !add_anns_app. rewrite <- !app_assoc.
+  f_equal.
+  destruct V as [|v [|v2 V]]; cbn [length] in HlV; try lia;
+  destruct W as [|w [|w2 W]]; cbn [length] in HlW; try lia;
+  cbn [optname opt_list_name names_of map app]; rewrite ?app_nil_r; reflexivity.
+Qed.
+
+(* ================================================================ part 7 *)
+(* building validity *)
+Lemma validate_intro ps :
+  ranks_ok ps 0 = true -> defs_ok ps false = true -> NoDup (names_of ps) -> validate ps = true.
+Proof.
+  intros H1 H2 H3. unfold validate. rewrite validate_aux_split, H1, H2. cbn [andb].
+  apply nodup_ok_spec. split; [exact H3|]. intros x _ [].
+Qed.
+
+Lemma validate_parts ps : validate ps = true ->
+  ranks_ok ps 0 = true /\ defs_ok ps false = true /\ NoDup (names_of ps).
+Proof.
+  unfold validate. rewrite validate_aux_split. intros H.
+  apply andb_true_iff in H. destruct H as [H H3]. apply andb_true_iff in H. destruct H as [H1 H2].
+  apply nodup_ok_spec in H3. tauto.
+Qed.
+
+Lemma defs_ok_nodef A : forall B, (forall p, In p A -> has_def p = false) ->
+  defs_ok (A ++ B) false = defs_ok B false.
+Proof.
+  induction A as [|p A IH]; intros B H; [reflexivity|]. cbn [app defs_ok].
+  rewrite (H p (or_introl eq_refl)). rewrite !andb_false_r. cbn [negb andb orb].
+  apply IH. intros q Hq. apply H. right. exact Hq.
+Qed.
+
+Lemma defs_ok_easy A : (forall p, In p A -> has_def p = true \/ is_positional p = false) ->
+  forall sd, defs_ok A sd = true.
+Proof.
+  induction A as [|p A IH]; intros H sd; [reflexivity|]. cbn [defs_ok].
+  rewrite IH by (intros q Hq; apply H; right; exact Hq). rewrite andb_true_r.
+  destruct (H p (or_introl eq_refl)) as [E|E]; rewrite E; cbn [negb andb]; [rewrite andb_false_r|]; reflexivity.
+Qed.
+
+Lemma defs_true P : forall R, all_kind PK P -> defs_ok (P ++ R) true = true ->
+  forall q, In q P -> has_def q = true.
+Proof.
+  induction P as [|p P IH]; intros R HP H q Hq; [destruct Hq|].
+  cbn [app defs_ok] in H. apply andb_true_iff in H. destruct H as [H1 H2].
+  assert (Hpos : is_positional p = true) by (unfold is_positional; rewrite (HP p (or_introl eq_refl)); reflexivity).
+  rewrite Hpos in H1. cbn [andb] in H1. rewrite andb_true_r in H1. apply negb_true_iff in H1.
+  apply negb_false_iff in H1.
+  destruct Hq as [<-|Hq]; [exact H1|].
+  cbn [orb] in H2. exact (IH R (all_kind_tail _ _ _ HP) H2 q Hq).
+Qed.
+
+Lemma defs_split P : forall R, all_kind PK P -> defs_ok (P ++ R) false = true ->
+  exists P1 P2, P = P1 ++ P2 /\ (forall p, In p P1 -> pdef p = None)
+                /\ (forall p, In p P2 -> has_def p = true).
+Proof.
+  induction P as [|p P IH]; intros R HP H.
+  - exists [], []. split; [reflexivity|]. split; intros p [].
+  - cbn [app defs_ok] in H. apply andb_true_iff in H. destruct H as [_ H2].
+    assert (Hpos : is_positional p = true) by (unfold is_positional; rewrite (HP p (or_introl eq_refl)); reflexivity).
+    rewrite Hpos in H2. cbn [orb andb] in H2.
+    destruct (has_def p) eqn:Hd.
+    + exists [], (p :: P). split; [reflexivity|]. split; [intros q []|].
+      intros q [<-|Hq]; [exact Hd|]. exact (defs_true P R (all_kind_tail _ _ _ HP) H2 q Hq).
+    + destruct (IH R (all_kind_tail _ _ _ HP) H2) as (P1 & P2 & -> & H1 & H3).
+      exists (p :: P1), P2. split; [reflexivity|]. split; [|exact H3].
+      intros q [<-|Hq]; [|exact (H1 q Hq)]. unfold has_def in Hd. destruct (pdef p); [discriminate|reflexivity].
+Qed.
+
+Lemma count_kind_app k A B : count_kind k (A ++ B) = (count_kind k A + count_kind k B)%nat.
+Proof. unfold count_kind. rewrite filter_app, app_length. reflexivity. Qed.
+Lemma count_kind_other k k' A : all_kind k' A -> kind_eqb k' k = false -> count_kind k A = 0%nat.
+Proof.
+  intros HA Hk. unfold count_kind. rewrite (filter_kind_none k' A (is_kind k) HA); [reflexivity|].
+  intros p E. rewrite (is_kind_of k' k p E). exact Hk.
+Qed.
+Lemma count_kind_le k A : (count_kind k A <= length A)%nat.
+Proof.
+  unfold count_kind. induction A as [|p A IH]; [reflexivity|]. cbn [filter length].
+  destruct (is_kind k p); cbn [length]; lia.
+Qed.
+
+(* a positional block X (all PK, defaults last), then *args, keyword-only
+   parameters, **kwargs *)
+Lemma valid_sig_build X1 X2 V K W :
+  all_kind PK (X1 ++ X2) -> all_kind VP V -> all_kind KO K -> all_kind VK W ->
+  (length V <= 1)%nat -> (length W <= 1)%nat ->
+  (forall p, In p X1 -> has_def p = false) -> (forall p, In p X2 -> has_def p = true) ->
+  NoDup (names_of ((X1 ++ X2) ++ V ++ K ++ W)) ->
+  valid_sig ((X1 ++ X2) ++ V ++ K ++ W) = true.
+Proof.
+  intros HX HV HK HW HlV HlW H1 H2 ND. unfold valid_sig.
+  apply andb_true_iff. split; [apply andb_true_iff; split|].
+  - apply validate_intro; [| |exact ND].
+    + apply (ranks_ok_seg 1 (X1 ++ X2)); [intros p Hp; rewrite (HX p Hp); reflexivity|lia|].
+      apply (ranks_ok_seg 2 V); [intros p Hp; rewrite (HV p Hp); reflexivity|lia|].
+      apply (ranks_ok_seg 3 K); [intros p Hp; rewrite (HK p Hp); reflexivity|lia|].
+      rewrite <- (app_nil_r W).
+      apply (ranks_ok_seg 4 W); [intros p Hp; rewrite (HW p Hp); reflexivity|lia|reflexivity].
+    + rewrite <- app_assoc. rewrite (defs_ok_nodef X1 _ H1). apply defs_ok_easy.
+      intros p Hp. apply in_app_or in Hp. destruct Hp as [Hp|Hp]; [left; exact (H2 p Hp)|right].
+      unfold is_positional. apply in_app_or in Hp. destruct Hp as [Hp|Hp]; [rewrite (HV p Hp); reflexivity|].
+      apply in_app_or in Hp. destruct Hp as [Hp|Hp]; [rewrite (HK p Hp)|rewrite (HW p Hp)]; reflexivity.
+  - apply Nat.leb_le. rewrite (count_kind_app VP (X1 ++ X2)), (count_kind_app VP V), (count_kind_app VP K).
+    rewrite (count_kind_other VP PK (X1 ++ X2) HX eq_refl), (count_kind_other VP KO K HK eq_refl),
+            (count_kind_other VP VK W HW eq_refl).
+    pose proof (count_kind_le VP V). lia.
+  - apply Nat.leb_le. rewrite (count_kind_app VK (X1 ++ X2)), (count_kind_app VK V), (count_kind_app VK K).
+    rewrite (count_kind_other VK PK (X1 ++ X2) HX eq_refl), (count_kind_other VK KO K HK eq_refl),
+            (count_kind_other VK VP V HV eq_refl).
+    pose proof (count_kind_le VK W). lia.
+Qed.
+
+(* ================================================================ part 8 *)
+(* modifiers.kwoargs on the def that read_sig produced (Model/Modifiers.v) *)
+Section PrepareKwo.
+Variable kwos : list name.
+Let sel (p : param) : bool := mem (pname p) kwos.
+Let nsel (p : param) : bool := negb (sel p).
+Definition rem_use (A : list param) (tu : list name) : list name :=
+  fold_left (fun t p => if mem (pname p) kwos then MM.set_remove (pname p) t else t) A tu.
+
+Lemma mem_set_remove' y x a : mem y (MM.set_remove x a) = negb (N.eqb x y) && mem y a.
+Proof.
+  unfold MM.set_remove. induction a as [|z a IH]; cbn [filter mem]; [rewrite andb_false_r; reflexivity|].
+  destruct (N.eqb x z) eqn:E; cbn [negb].
+  - apply N.eqb_eq in E. subst z. rewrite IH.
+    destruct (N.eqb y x) eqn:E2; [|reflexivity].
+    apply N.eqb_eq in E2. subst y. rewrite N.eqb_refl. reflexivity.
+  - cbn [mem]. rewrite IH. destruct (N.eqb y z) eqn:E2; [|reflexivity].
+    apply N.eqb_eq in E2. subst z. rewrite E. reflexivity.
+Qed.
+
+Lemma mem_rem_use A : forall tu y,
+  mem y (rem_use A tu) = mem y tu && negb (mem y (names_of (filter sel A))).
+Proof.
+  unfold rem_use. induction A as [|p A IH]; intros tu y; cbn [fold_left filter names_of map mem].
+  - rewrite andb_true_r. reflexivity.
+  - destruct (mem (pname p) kwos) eqn:E.
+    + assert (Hs : sel p = true) by (unfold sel; exact E). rewrite Hs.
+      rewrite IH, mem_set_remove'. cbn [names_of map mem]. fold (names_of (filter sel A)).
+      rewrite (N.eqb_sym y (pname p)).
+      destruct (N.eqb (pname p) y), (mem y tu), (mem y (names_of (filter sel A))); reflexivity.
+    + assert (Hs : sel p = false) by (unfold sel; exact E). rewrite Hs.
+      rewrite IH. reflexivity.
+Qed.
+
+Lemma prep_pk A : forall i st, all_kind PK A ->
+  exists KP FP, MM.prep_loop [] kwos A i st
+  = Ok (MM.mkPS (MM.st_params st ++ filter nsel A)
+                (MM.st_kwoparams st ++ map (set_kind KO) (filter sel A))
+                KP FP (MM.st_found_kws st) (rem_use A (MM.st_to_use st))).
+Proof.
+  induction A as [|p A IH]; intros i st HA.
+  - cbn [MM.prep_loop filter map rem_use fold_left]. rewrite !app_nil_r.
+    destruct st. eexists. eexists. reflexivity.
+  - cbn [MM.prep_loop]. unfold MM.prep_step. rewrite (HA p (or_introl eq_refl)). cbn [mem].
+    destruct (mem (pname p) kwos) eqn:E; cbn [Base.bind].
+    + assert (Hs : sel p = true) by (unfold sel; exact E).
+      assert (Hn : nsel p = false) by (unfold nsel; rewrite Hs; reflexivity).
+      match goal with |- context [MM.prep_loop [] kwos A (S i) ?s] =>
+        destruct (IH (S i) s (all_kind_tail _ _ _ HA)) as (KP & FP & E2) end.
+      rewrite E2. cbn [MM.st_params MM.st_kwoparams MM.st_found_kws MM.st_to_use].
+      cbn [filter]. rewrite Hs, Hn. cbn [map]. unfold rem_use. cbn [fold_left]. rewrite E.
+      rewrite <- !app_assoc. eexists. eexists. reflexivity.
+    + assert (Hs : sel p = false) by (unfold sel; exact E).
+      assert (Hn : nsel p = true) by (unfold nsel; rewrite Hs; reflexivity).
+      match goal with |- context [MM.prep_loop [] kwos A (S i) ?s] =>
+        destruct (IH (S i) s (all_kind_tail _ _ _ HA)) as (KP & FP & E2) end.
+      rewrite E2. cbn [MM.st_params MM.st_kwoparams MM.st_found_kws MM.st_to_use].
+      cbn [filter]. rewrite Hs, Hn. unfold rem_use. cbn [fold_left]. rewrite E.
+      rewrite <- !app_assoc. eexists. eexists. reflexivity.
+Qed.
+
+Lemma prep_loop_app' posos a : forall b i st,
+  MM.prep_loop posos kwos (a ++ b) i st =
+  (do st1 <- MM.prep_loop posos kwos a i st ;; MM.prep_loop posos kwos b (i + length a) st1).
+Proof.
+  induction a as [|p a IH]; intros b i st; cbn [app MM.prep_loop length].
+  - rewrite Nat.add_0_r. reflexivity.
+  - destruct (MM.prep_step posos kwos i p st); cbn [Base.bind]; [|reflexivity].
+    rewrite IH. replace (S i + length a)%nat with (i + S (length a))%nat by lia. reflexivity.
+Qed.
+
+Lemma is_nil_mem (l : list name) : (forall y, mem y l = false) -> @MM.is_nil name l = true.
+Proof. destruct l as [|x l]; [reflexivity|]. intros H. specialize (H x). cbn [mem] in H. rewrite N.eqb_refl in H. discriminate. Qed.
+
+Lemma prepare_kwo Y V W :
+  all_kind PK Y -> all_kind VP V -> all_kind VK W -> (length V <= 1)%nat -> (length W <= 1)%nat ->
+  (forall p, In p (V ++ W) -> mem (pname p) kwos = false) ->
+  (forall y, mem y kwos = true -> mem y (names_of (filter sel Y)) = true) ->
+  validate (filter nsel Y ++ V ++ map (set_kind KO) (filter sel Y) ++ W) = true ->
+  exists kp, MM.prepare (Y ++ V ++ W) [] kwos
+  = Ok (filter nsel Y ++ V ++ map (set_kind KO) (filter sel Y) ++ W, kp).
+Proof.
+  intros HY HV HW HlV HlW Hout Hall Hval. unfold MM.prepare. cbn [MM.set_inter filter MM.is_nil negb app].
+  rewrite (prep_loop_app' [] Y (V ++ W) 0).
+  destruct (prep_pk Y 0 (MM.mkPS [] [] [] false false kwos) HY) as (KP & FP & E). rewrite E. clear E.
+  cbn [Base.bind MM.st_params MM.st_kwoparams MM.st_found_kws MM.st_to_use app].
+  set (tu := rem_use Y kwos).
+  assert (Htu : forall y, mem y tu = false).
+  { intros y. unfold tu. rewrite mem_rem_use. destruct (mem y kwos) eqn:E; [|reflexivity].
+    rewrite (Hall y E). reflexivity. }
+  assert (HtuV : forall p, mem (pname p) tu = false) by (intros p; apply Htu).
+  destruct V as [|v [|v2 V]]; cbn [length] in HlV; try lia;
+  destruct W as [|w [|w2 W]]; cbn [length] in HlW; try lia;
+  cbn [app MM.prep_loop].
+  - cbn [Base.bind MM.st_found_kws MM.st_params MM.st_kwoparams MM.st_to_use].
+    rewrite (is_nil_mem tu Htu). cbn [negb]. cbn [app] in Hval. rewrite ?app_nil_r in Hval.
+    rewrite <- ?app_assoc. cbn [app]. rewrite ?app_nil_r. rewrite Hval. eexists. reflexivity.
+  - unfold MM.prep_step. rewrite (HW w (or_introl eq_refl)).
+    cbn [MM.st_to_use]. rewrite HtuV. cbn [Base.bind kind_eqb kind_rank Nat.eqb].
+    cbn [MM.st_found_kws MM.st_params MM.st_kwoparams MM.st_to_use].
+    rewrite (is_nil_mem tu Htu). cbn [negb]. cbn [app] in Hval. rewrite ?app_nil_r in Hval.
+    rewrite <- ?app_assoc. cbn [app]. rewrite ?app_nil_r. rewrite Hval. eexists. reflexivity.
+  - unfold MM.prep_step. rewrite (HV v (or_introl eq_refl)).
+    cbn [MM.st_to_use]. rewrite HtuV. cbn [Base.bind kind_eqb kind_rank Nat.eqb].
+    cbn [MM.st_found_kws MM.st_params MM.st_kwoparams MM.st_to_use].
+    rewrite (is_nil_mem tu Htu). cbn [negb]. cbn [app] in Hval. rewrite ?app_nil_r in Hval.
+    rewrite <- ?app_assoc. cbn [app]. rewrite ?app_nil_r. rewrite Hval. eexists. reflexivity.
+  - unfold MM.prep_step at 1. rewrite (HV v (or_introl eq_refl)).
+    cbn [MM.st_to_use]. rewrite HtuV. cbn [Base.bind kind_eqb kind_rank Nat.eqb].
+    unfold MM.prep_step. rewrite (HW w (or_introl eq_refl)).
+    cbn [MM.st_to_use]. rewrite HtuV. cbn [Base.bind kind_eqb kind_rank Nat.eqb].
+    cbn [MM.st_found_kws MM.st_params MM.st_kwoparams MM.st_to_use].
+    rewrite (is_nil_mem tu Htu). cbn [negb]. cbn [app] in Hval. rewrite ?app_nil_r in Hval.
+    rewrite <- ?app_assoc. cbn [app]. rewrite ?app_nil_r. rewrite Hval. eexists. reflexivity.
+Qed.
+
+End PrepareKwo.
